@@ -1337,36 +1337,72 @@ Proof.
   destruct (si_admitted x) eqn:Ea.
   - (* update of an admitted entry *)
     unfold cnt_of, wt_of in Hsz, Hwt. rewrite Ea in Hsz, Hwt.
-    change (s_ws sd) with (s_ws s).
+    change (s_ws sd) with (s_ws s). change (s_map sd) with (s_map s).
     assert (Hsat : sat_add64 (sat_sub (s_ws s) (si_weight x)) nw = s_ws s - si_weight x + nw).
     { unfold sat_add64, sat_sub. apply N.min_l. unfold u64_max, two32 in *. nia. }
     rewrite Hsat.
-    set (x' := si_set_weight nw (si_set_dirty false x)).
-    set (t1 := upd_info (sset_ws sd (s_ws s - si_weight x + nw)) i (si_set_weight nw)).
-    assert (Hinf1 : s_infos t1 = <[i := x']> (s_infos s)).
-    { subst t1 sd. repeat sinf. rewrite Hg0. rewrite insert_insert. reflexivity. }
-    assert (Hf1 : s_map t1 = s_map s /\ s_ves t1 = s_ves s /\ s_prob t1 = s_prob s /\ s_wo t1 = s_wo s /\
-      s_rq t1 = s_rq s /\ s_wq t1 = s_wq s /\ s_ec t1 = s_ec s /\ s_va t1 = s_va s /\
-      s_sk t1 = s_sk s /\ s_skon t1 = s_skon s /\ s_sync_after t1 = s_sync_after s /\
-      s_next t1 = s_next s /\ s_ws t1 = s_ws s - si_weight x + nw) by (repeat split).
-    clearbody t1. clear sd Hgd.
-    destruct Hf1 as (F1 & F2 & F3 & F4 & F5 & F6 & F7 & F8 & F9 & F10 & F11 & F12 & F13).
-    assert (H1 : SInvG c (WUpsert k h ve ow nw :: q) t1).
-    { eapply G_upd with (i:=i) (x:=x) (x':=x'); try exact H; try eassumption; try reflexivity.
+    assert (Hopk : ve_ok s k ve).
+    { assert (Hop : wop_ok c s (WUpsert k h ve ow nw)) by (apply Gwq; left). apply Hop. }
+    match goal with |- context [s_move_to_back_ao ?t i] => set (t1 := t) end.
+    (* [t1]: the weight is set only when the op's ValueEntry is the map's current one *)
+    assert (Ht1 : exists x', s_infos t1 = <[i := x']> (s_infos s) /\ si_dirty x' = false /\
+      (forall k', s_map s !! k' = Some ve -> si_admitted x' = true /\ si_weight x' = nw) /\
+      SInvG c (WUpsert k h ve ow nw :: q) t1 /\
+      s_map t1 = s_map s /\ s_ves t1 = s_ves s /\ s_rq t1 = s_rq s /\ s_wq t1 = s_wq s /\
+      s_va t1 = s_va s /\ s_sk t1 = s_sk s /\ s_skon t1 = s_skon s /\
+      s_sync_after t1 = s_sync_after s /\ s_next t1 = s_next s).
+    { assert (Hstale : s_map s !! k <> Some ve ->
+        exists x', s_infos sd = <[i := x']> (s_infos s) /\ si_dirty x' = false /\
+        (forall k', s_map s !! k' = Some ve -> si_admitted x' = true /\ si_weight x' = nw) /\
+        SInvG c (WUpsert k h ve ow nw :: q) sd /\
+        s_map sd = s_map s /\ s_ves sd = s_ves s /\ s_rq sd = s_rq s /\ s_wq sd = s_wq s /\
+        s_va sd = s_va s /\ s_sk sd = s_sk s /\ s_skon sd = s_skon s /\
+        s_sync_after sd = s_sync_after s /\ s_next sd = s_next s).
+      { intros Hnc. exists (si_set_dirty false x).
+        assert (Hinfd : s_infos sd = <[i := si_set_dirty false x]> (s_infos s)).
+        { subst sd. rewrite s_infos_upd_info, Hg0. reflexivity. }
+        split; [exact Hinfd|]. split; [reflexivity|]. split.
+        { intros k' Hm'. exfalso. apply Hnc.
+          rewrite (ve_ok_key_unique _ _ _ _ Hopk (Gmap _ _ Hm')). exact Hm'. }
+        split; [|repeat split].
+        eapply G_upd with (i:=i) (x:=x) (x':=si_set_dirty false x); try exact H; try eassumption; try reflexivity.
+        - cbn. discriminate.
+        - intros k' ve_m Hm Hve. pose proof (Gweight _ _ Hm) as HW'. fold i in Hve.
+          rewrite Hve, Hg0 in HW'. exact HW'. }
+      subst t1. destruct (s_map s !! k) as [v|] eqn:Emk; [|apply Hstale; discriminate].
+      destruct (N.eqb_spec v ve) as [->|Hne]; [|apply Hstale; congruence].
+      clear Hstale.
+      set (x' := si_set_weight nw (si_set_dirty false x)).
+      set (t1 := upd_info (sset_ws sd (s_ws s - si_weight x + nw)) i (si_set_weight nw)).
+      assert (Hinf1 : s_infos t1 = <[i := x']> (s_infos s)).
+      { subst t1 sd. repeat sinf. rewrite Hg0. rewrite insert_insert. reflexivity. }
+      assert (Hf1 : s_map t1 = s_map s /\ s_ves t1 = s_ves s /\ s_prob t1 = s_prob s /\ s_wo t1 = s_wo s /\
+        s_rq t1 = s_rq s /\ s_wq t1 = s_wq s /\ s_ec t1 = s_ec s /\ s_va t1 = s_va s /\
+        s_sk t1 = s_sk s /\ s_skon t1 = s_skon s /\ s_sync_after t1 = s_sync_after s /\
+        s_next t1 = s_next s /\ s_ws t1 = s_ws s - si_weight x + nw) by (repeat split).
+      clearbody t1. clear sd Hgd.
+      destruct Hf1 as (F1 & F2 & F3 & F4 & F5 & F6 & F7 & F8 & F9 & F10 & F11 & F12 & F13).
+      exists x'. split; [exact Hinf1|]. split; [reflexivity|].
+      split; [intros _ _; split; [exact Ea|reflexivity]|].
+      split; [|repeat split; assumption].
+      eapply G_upd with (i:=i) (x:=x) (x':=x'); try exact H; try eassumption; try reflexivity.
       - subst x'. cbn. discriminate.
       - unfold wt_of. cbn. rewrite Ea, F13. rewrite Gws, Hwt. lia.
       - intros k' ve_m Hm Hve. apply (HW _ _ Hm Hve). }
+    clearbody t1. clear sd Hgd.
+    destruct Ht1 as (x' & Hinf1 & Hdx & Hcur & H1 & F1 & F2 & F5 & F6 & F8 & F9 & F10 & F11 & F12).
     assert (Hi1 : s_infos t1 !! i = Some x') by (rewrite Hinf1; apply lookup_insert).
     destruct (s_move_to_back_ao_G _ _ _ _ _ H1 Hi1) as (s3 & -> & H3 & Hp3 & Hs3). cbn [rbind].
     assert (Hi3 : s_infos s3 !! i = Some x') by (rewrite Hs3; exact Hi1).
     destruct (s_move_to_back_wo_G _ _ _ _ _ H3 Hi3) as (s4 & -> & H4 & Hp4 & Hs4).
     assert (Hi4 : s_infos s4 !! i = Some x') by (rewrite Hs4; exact Hi3).
     assert (Hv4 : s_ves s4 = s_ves s) by (rewrite Hs4, Hs3; exact F2).
+    assert (Hm4 : s_map s4 = s_map s) by (rewrite Hs4, Hs3; exact F1).
     exists s4. split; [reflexivity|]. split.
     { eapply G_pop_upsert; [exact H4| |].
-      - rewrite (ve_info_ext s s4) by assumption. fold i. rewrite (get_info_Some _ _ _ Hi4). reflexivity.
-      - intros _ _. rewrite (ve_info_ext s s4) by assumption. fold i. rewrite (get_info_Some _ _ _ Hi4).
-        split; [exact Ea|reflexivity]. }
+      - rewrite (ve_info_ext s s4) by assumption. fold i. rewrite (get_info_Some _ _ _ Hi4). exact Hdx.
+      - intros k' Hm'. rewrite (ve_info_ext s s4) by assumption. fold i. rewrite (get_info_Some _ _ _ Hi4).
+        rewrite Hm4 in Hm'. exact (Hcur _ Hm'). }
     rewrite Hs4, Hs3. sprojg. split; [|lia].
     unfold wframe. sprojg. rewrite F1. repeat split; try assumption; reflexivity.
   - (* not admitted yet *)
